@@ -6,6 +6,8 @@
 """
 from __future__ import annotations
 
+import asyncio
+
 from ..common import B, Ctx
 from .. import vloop, acdev, landev
 
@@ -102,6 +104,8 @@ class RawStateDevice(acdev.ACModel):
         c = acdev.parse_command(f)
         if c["ok"] and c["body"][:2] == bytes([0x41, 0x81]):
             return [acdev.resp_frame(3, self.raw, self.rstyle)]
+        if c["ok"] and c["body"][:1] == b"\xb5":
+            return [acdev.resp_frame(3, bytes([0xB5, 1, 0x10, 0x02, 1, 1, 0, 0]), "crc")]       # custom fan speeds, nothing else (no filter reminder, no display ...)
         return []
 
 
@@ -119,9 +123,28 @@ def collect(ctx: Ctx, bodies):
             ac.raw = bytes(body)
             ac.rstyle = "crc" if k % 2 == 0 else "sum"
             d = AC(ip="10.0.0.1", port=6444, device_id=k)
+            ctxname = ""
             try:
+                if k % 6 == 1:
+                    ctxname = " [after get_capabilities of a unit advertising little]"
+                    await d.get_capabilities()
+                elif k % 6 == 3 and k > 0:
+                    # the same object refreshed before with the SAME bytes, local attributes changed by setters in between (never applied)
+                    ctxname = " [second refresh with identical bytes after local changes]"
+                    await d.refresh()
+                    from .c10 import rand_state, apply_state
+                    apply_state(AC, d, rand_state(ctx.rng), ctx.rng)
+                elif k % 6 == 5 and k > 0:
+                    # an unsolicited report of ANOTHER state reached the idle client before this refresh
+                    ctxname = " [an older unsolicited report queued]"
+                    other = bytes(bodies[k - 1][1])
+                    ac.raw = other
+                    await d.refresh()
+                    ac.raw = bytes(body)
+                    net.conns[-1].feed(landev.v2_wrap(acdev.resp_frame(5, other, "crc"), k))
+                    await asyncio.sleep(0.2)
                 await d.refresh()
-                vectors.append({"tag": tag, "body": B(body), "style": ac.rstyle, "online": bool(d.online and d.supported),
+                vectors.append({"tag": tag + ctxname, "body": B(body), "style": ac.rstyle, "online": bool(d.online and d.supported),
                                 "attrs": observe(d), "exc": "none"})
             except Exception as e:  # noqa: BLE001
                 vectors.append({"tag": tag, "body": B(body), "style": ac.rstyle, "online": False, "attrs": {},
